@@ -39,6 +39,8 @@ def units(tier):
         for lazy in (False, True):
             us.append(("insn[%s,%s]" % (m, lazy), "unit_compile_insn", dict(mnemonic=m, lazy=lazy)))
     us.append(("rac", "unit_rac", {}))
+    # a displacement inside a '.repeat' body is right only if every copy is compiled at its own address (loop contract shared with C16 / C02 / C06)
+    us.append(("repeat", "unit_repeat", {}))
     # the displacement 'target - rel_address' of a lazy target is LinearPolynomial arithmetic, awaited when the word is written: the polynomial's
     # value is preserved by every operation and by the re-simplification in _wait (contracts/deferred_c.py, shared with C03)
     for name, fn, kw in deferred_c.all_units():
@@ -74,6 +76,11 @@ RAC_PROGS = [
                                         ("mov T-2, @F+4", 6, [("rel", 2, "T-2"), ("rel", 4, "F+4")]), ("L", "F"), NOP]}),
     dict(main="m.mac", files={"m.mac": [("k = tbl + 2", 0, []), NOP, ("jmp end-k+tbl", 4, [("rel", 2, "end-2")]), ("br end-k+tbl", 2, [("br", 0, "end-2")]), NOP, ("L", "tbl"), NOP, NOP, ("L", "end"), NOP]}),
     dict(main="m.mac", files={"m.mac": [("k = end", 0, []), ("j = tbl", 0, []), NOP, ("jmp 2*k-j-j+tbl-end+tbl", 4, [("rel", 2, "end")]), ("mov @3*k-2*end-j+tbl, r0", 4, [("rel", 2, "end")]), ("L", "tbl"), NOP, NOP, ("L", "end"), NOP]}),
+    # '.repeat' bodies: every copy is assembled at its own address (targets outside the body: backward label, forward label, constant; base known or not)
+    dict(main="m.mac", files={"m.mac": [("L", "T"), NOP, (".repeat 3 { br T }", 6, [("br", 0, "T"), ("br", 2, "T"), ("br", 4, "T")]), (".repeat 2 { sob r1, T }", 4, [("sob", 0, "T"), ("sob", 2, "T")]),
+                                        (".repeat 2 { add #2, T }", 12, [("rel", 4, "T"), ("rel", 10, "T")]), (".repeat 2 { jmp @F }", 8, [("rel", 2, "F"), ("rel", 6, "F")]), NOP, ("L", "F"), NOP]}),
+    dict(main="m.mac", link=0o4000, files={"m.mac": [("L", "T"), NOP, (".repeat 4 { br T }", 8, [("br", 0, "T"), ("br", 2, "T"), ("br", 4, "T"), ("br", 6, "T")]), (".repeat 3 { mov T, 100 }", 18, [("rel", 2, "T"), ("rel", 4, "=64"), ("rel", 8, "T"), ("rel", 10, "=64"), ("rel", 14, "T"), ("rel", 16, "=64")]),
+                                                     (".repeat 2 { .repeat 2 { bne T } }", 8, [("br", 0, "T"), ("br", 2, "T"), ("br", 4, "T"), ("br", 6, "T")])]}),
     # wrap-around: absolute targets far from the code, high link address
     dict(main="m.mac", link=0o177700, files={"m.mac": [NOP, ("mov 10, r0", 4, [("rel", 2, "=8")]), ("jmp 177776", 4, [("rel", 2, "=65534")]), ("mov #1, 100", 6, [("rel", 4, "=64")])]}),
     dict(main="m.mac", link=0o10, files={"m.mac": [NOP, ("mov 177770, r0", 4, [("rel", 2, "=65528")]), ("clr @0", 4, [("rel", 2, "=0")])]}),
@@ -162,9 +169,9 @@ finally:
             w = img[at - base + off] | (img[at - base + off + 1] << 8)
             if kind == "br":
                 d = w & 0xFF
-                ea = (at + 2 + 2 * (d - 256 if d & 0x80 else d)) % 65536
+                ea = (at + off + 2 + 2 * (d - 256 if d & 0x80 else d)) % 65536
             elif kind == "sob":
-                ea = (at + 2 - 2 * (w & 0o77)) % 65536
+                ea = (at + off + 2 - 2 * (w & 0o77)) % 65536
             else:
                 ea = (at + off + 2 + w) % 65536
             if ea != want:
@@ -173,6 +180,11 @@ finally:
               status="proved" if not bad else "failed", secs=0.0, path=[], witness=None, detail=json.dumps(bad[:3])[:1500], events=[], smt2=None, backend="cpython-native", unit="pcrel-rac",
               func="Compiler (run-time check)", cases=n, cfg=dict(kind="rac"))
     return dict(unit="pcrel-rac", func="Compiler (run-time check)", paths=n, obligations=[ob], wall=0.0, bad=bad)
+
+
+def unit_repeat(eng):
+    from contracts import meta_c
+    return meta_c.unit_repeat(eng)
 
 
 def canary(eng):
@@ -189,7 +201,7 @@ def canary(eng):
 def replay(o, tree):
     cfg = o.get("cfg") or {}
     w = o.get("witness") or {}
-    if str(cfg.get("kind", "")).startswith("poly") or cfg.get("kind") == "rac":
+    if str(cfg.get("kind", "")).startswith("poly") or cfg.get("kind") in ("rac", "repeat") or o.get("unit", "").startswith(".repeat"):
         # program level first: the include / alias programs go through the same arithmetic
         r = unit_rac(None, tree)
         if r["bad"]:
